@@ -18,11 +18,45 @@ def _concrete(case):
 def invalid_graph(draw, case):
     case = copy.deepcopy(case)
     prog = case['program']
-    kind = draw(st.sampled_from(['dangling', 'cycle1', 'cycle2', 'cyclek', 'ambiguous', 'excluded-target']))
+    kind = draw(st.sampled_from(['dangling', 'cycle1', 'cycle2', 'cyclek', 'ambiguous', 'excluded-target', 'foreign',
+                                 'foreign']))
     tasks = _concrete(case)
     mi, ti = draw(st.sampled_from(tasks))
     t = prog['modules'][mi]['tasks'][ti]
-    if kind == 'dangling':
+    if kind == 'foreign':
+        # an input named like a task that exists in the program - but perhaps only in ANOTHER namespace than the
+        # declaring task's (then it is dangling: inputs are resolved inside the declaring task's own namespace), or
+        # downstream of it (a cycle), or it is simply one more edge; the reference model says which
+        others = [(a, b) for (a, b) in tasks if (a, b) != (mi, ti)
+                  and not any(i.get('mod') == a and i.get('task') == b for i in t['inputs'])]
+        # preferably: the declaring task is mounted at the root, the named one only below a namespace
+        try:
+            from tcv import model
+            where = {}
+            for inst in model.compose(case):
+                if inst.node.get('module') is not None:
+                    where.setdefault(inst.node['module'], set()).add(inst.ns)
+            rooted = [(a, b) for (a, b) in tasks if None in where.get(a, ())]
+            below = [(a, b) for (a, b) in tasks if where.get(a) and None not in where[a]]
+            if rooted and below and draw(st.integers(0, 3)) > 0:
+                mi, ti = draw(st.sampled_from(rooted))
+                t = prog['modules'][mi]['tasks'][ti]
+                others = [(a, b) for (a, b) in below
+                          if not any(i.get('mod') == a and i.get('task') == b for i in t['inputs'])] or others
+        except Exception:
+            pass
+        if not others:
+            return _dangling(case, draw)
+        a, b = draw(st.sampled_from(others))
+        u = prog['modules'][a]['tasks'][b]
+        text = draw(st.sampled_from([u['slug'], u['name']]))
+        optional = draw(st.booleans())
+        inp = {'form': 'text', 'text': text, 'optional': optional, 'via_param': False}
+        if optional:
+            inp['default'] = None
+        t['inputs'].append(inp)
+        t['style'] = 'index' if t['style'] == 'args' else t['style']
+    elif kind == 'dangling':
         t['inputs'].append({'form': 'text', 'text': draw(st.sampled_from(['zz_missing', 'g:zz_missing', 'm::zz_missing',
                                                                           t['name'] + 'x'])),
                             'optional': False, 'via_param': False})
@@ -115,7 +149,7 @@ def invalid_config(draw, case):
     from tcv import gen
     case = copy.deepcopy(case)
     prog = case['program']
-    kind = draw(st.sampled_from(['missing-required', 'wrong-type', 'conflict', 'conflict']))
+    kind = draw(st.sampled_from(['missing-required', 'wrong-type', 'wrong-type', 'conflict', 'conflict']))
     nodes = [(fi, pn, nd) for fi, pn, nd in _all_nodes(case) if nd['module'] is not None]
     if kind == 'missing-required':
         cands = []
@@ -146,7 +180,9 @@ def invalid_config(draw, case):
         else:
             fi, pn, key, dt = draw(st.sampled_from(cands))
             nd = case['files'][fi]['parts'][pn] if pn else case['files'][fi]['node']
-            nd['values'][key] = {'int': 'seven', 'str': 7, 'list': {'a': 1}}[dt]
+            # also wrongly typed values that compare EQUAL to the generated default (3.0 == 3) or look close to it
+            nd['values'][key] = draw(st.sampled_from({'int': ['seven', 3.0, 3.0, 2.5, [3]], 'str': [7, ['dv'], 0.0],
+                                                      'list': [{'a': 1}, 'x', 1]}[dt]))
     if kind == 'conflict':
         # a second config file for a module, mounted plainly next to an existing instance of that module
         fi, pn, nd = draw(st.sampled_from(nodes))
